@@ -282,7 +282,7 @@ fn from_cfg(sp: CfgSpace, rotate_variants: bool) -> TargetSpace {
     }
 }
 
-/// The member menu of C14 (20 kinds).
+/// The member menu of C14 (27 kinds).
 pub fn member_menu() -> Vec<Member> {
     use Member::*;
     let rr = Pkt::Rr { ssrc: 0x0102_0304, blocks: vec![], pad: 0 };
@@ -304,6 +304,14 @@ pub fn member_menu() -> Vec<Member> {
         Plain(Pkt::Rr { ssrc: 5, blocks: vec![], pad: 5 }),
         Wrapped(Pkt::Bye { ssrcs: vec![1, 2], reason: "xyz".into(), pad: 0 }),
         Wrapped(Pkt::Rr { ssrc: 6, blocks: vec![gens::sentinel_rb(1, 0)], pad: 4 }),
+        // a padded packet of every other type behind the `PacketBuilder` wrapper (one `get_padding` arm per type)
+        Wrapped(Pkt::Bye { ssrcs: vec![3], reason: String::new(), pad: 4 }),
+        Wrapped(Pkt::App { ssrc: 7, subtype: 1, name: "wrap".into(), data: vec![], pad: 4 }),
+        Wrapped(Pkt::Sdes { chunks: vec![Chunk { ssrc: 2, items: vec![] }], pad: 8 }),
+        Wrapped(Pkt::Sr { ssrc: 9, ntp: 1, rtp: 2, pc: 3, oc: 4, blocks: vec![], pad: 4 }),
+        Wrapped(Pkt::Fb { kind: Kind::Transport, sender: 1, media: 2, fci: Fci::Nack(vec![9]), pad: 4 }),
+        Wrapped(Pkt::Fb { kind: Kind::Payload, sender: 1, media: 2, fci: Fci::Pli, pad: 4 }),
+        Wrapped(Pkt::Unknown { pt: 199, count: 1, data: vec![1, 2, 3, 4], pad: 4 }),
         Ext { pt: 242, min: 12, count: 3, ssrc: 0x0E0E_0E0E, words: vec![0xDEAD_BEEF], pad: 0 },
         Nested(vec![]),
         Nested(vec![Plain(rr.clone()), Plain(bye.clone())]),
